@@ -54,6 +54,9 @@ int skinny64_parallel_ecb_init(Skinny64ParallelECB_t *ecb)
     Skinny64Key_t *ctx;
     if (!ecb)
         return 0;
+    ecb->vtable = 0;
+    ecb->ctx = 0;
+    ecb->parallel_size = 0;
     if ((ctx = calloc(1, sizeof(Skinny64Key_t))) == NULL)
         return 0;
     ecb->vtable = 0;
